@@ -83,7 +83,7 @@ def gen(rng, tier):
                 uf = []
                 for e in rng.sample(same, min(len(same), rng.choice([1, 2]))):
                     uf.append(G.mf(list(e["cols"]), [["gene_id", [g]], ["transcript_id", ["UT%d" % ui]]]))
-            upd = {"feats": uf, "form": rng.choice(["list", "gen", "path", "string"]), "kind": kind,
+            upd = {"feats": uf, "form": rng.choice(["list", "gen", "path", "string", "objs"]), "kind": kind,
                    "other_punctuation": rng.random() < 0.4}
             if rng.random() < 0.4:
                 # the first attempt's source fails after the dialect peek; the call is then retried on the same handle
@@ -134,7 +134,7 @@ def gen(rng, tier):
             if f["cols"][2] == "transcript":
                 f["cols"][2] = rng.choice(["mRNA", "ncRNA", "transcript"])
     return {"feats": feats, "custom": custom, "kw": kw, "form": rng.choice(["path", "string", "list", "gen"]), "shared": shared,
-            "tx_types": tx_types, "failed_update_probe": rng.random() < 0.2, "late_update": rng.choice([None, None, "list", "gen", "string"]),
+            "tx_types": tx_types, "failed_update_probe": rng.random() < 0.2, "late_update": rng.choice([None, None, "list", "gen", "string", "objs"]),
             "after": rng.choice(["none", "reopen", "restart", "restart"]), "fault": fault, "updates": updates, "pair": pair,
             "base_no_trailing_semicolon": rng.random() < 0.35,
             # no two lines of these inputs share a key, so every strategy must give the same database
